@@ -51,6 +51,17 @@ def run(ctx: Ctx) -> int:
 	replay['graph'] = 'Chain'
 	ctx.log(f'replayed {replay["edges"]} edges ({replay["stats"].get("runs", 0)} real runs, {replay["stats"].get("texts_compared", 0)} output texts compared); {len(replay["failures"])} discrepancies')
 	violations = collect(ctx, PROP, replay)
+	# the diamond a -> {b, c} -> d: two import paths to one module, a different target order
+	dsound = tlc.run('MCTranp', 'TranpD_cache_sound.cfg', workers=16, timeout=900)
+	if not dsound.ok:
+		raise Machinery(f'TLC: the sound-key model violates a C05 clause on the diamond graph: {dsound.out[-1500:]}')
+	dres = tlc.run('MCTranp', 'TranpD_cache_edges4.cfg' if quick else 'TranpD_cache_edges5.cfg', workers=1, timeout=900)
+	dedges = [json.loads(line) for line in dres.lines('EDGE ')]
+	dreplay = replay_edges('Diamond', dedges)
+	dreplay['graph'] = 'Diamond'
+	ctx.log(f'diamond graph: sound keys {dsound.distinct} states OK; replayed {dreplay["edges"]} edges ({dreplay["stats"].get("runs", 0)} real runs); {len(dreplay["failures"])} discrepancies')
+	seen = {v.key for v in violations}
+	violations += [v for v in collect(ctx, PROP, dreplay) if v.key not in seen]
 
 	coverage = {
 		'states': sound.distinct + coded.distinct,
@@ -63,7 +74,9 @@ def run(ctx: Ctx) -> int:
 		'stale_outputs_reproduced': replay['stats'].get('stale_reproduced', 0),
 		'design_level_counterexample_with_coded_keys': design_cex,
 		'exhaustive': True,
-		'bounds': {'graph': 'chain a->b->c', 'variants': 2, 'operations': 4 if quick else 5, 'damaged_files': 1},
+		'bounds': {'graph': 'chain a->b->c and diamond a->{b,c}->d', 'variants': 2, 'operations': 4 if quick else 5, 'damaged_files': 1},
+		'diamond_edges_replayed_on_impl': dreplay['edges'],
+		'diamond_real_runs': dreplay['stats'].get('runs', 0),
 		'samples': [{'history': [e['op'] for e in edges[:1]]}, {'edge': edges[len(edges) // 2]['op']}],
 		'clauses': CLAUSES,
 	}
